@@ -41,13 +41,23 @@ META = {
             "octets). Further: "
             "flowset length < 65536, non-empty flowsets, a template record has >= 1 field, the data flowset's template is "
             "what Cache.lookup returns on the cache as updated by the preceding flowsets. Nothing is partial. The model is "
-            "tied to netflow/v9/decoder.go by the differential correspondence on generated well-formed and malformed "
+            "tied to netflow/v9/decoder.go (i) statically, as C03 for IPFIX: every run re-translates the decoder's functions from the "
+            "Go AST, statement by statement (go/cmd/factgen/ipfix_ir.go, second profile -> Vflow.Gen.V9IR), the interpreter "
+            "Vflow.Model.IpfixIR gives the IR Go's semantics, and gen_ir_minRecordLen (= V9.minRecLen), gen_ir_decodeData (= V9.decodeData: "
+            "the read BEFORE the element lookup, both index loops, fatal / non-fatal errors), gen_ir_fieldSpecUnmarshal (= readSpec), "
+            "gen_ir_tplHeaderUnmarshal / ...Opts, gen_ir_setHeaderUnmarshal, gen_ir_tplRecordUnmarshal / ...Opts (= parseTpl / parseOptTpl: "
+            "count-down loops over FieldCount, OptionScopeLen / 4, OptionLen / 4), gen_ir_pktHeaderUnmarshal (= readHeader), "
+            "gen_ir_pktHeaderValidate, gen_ir_structs prove that each interpreted translation IS the model's function for every input "
+            "(decodeSet / Decode: C09); (ii) by the differential correspondence on generated well-formed and malformed "
             "datagram streams plus a model-independent expected-decode oracle.",
     "ref": "DESIGN.md §6 C06",
-    "note": "Trusted: Lean kernel; hand-written model Vflow.Model.V9 / Flow (Go code transcribed) and hand-written RFC "
+    "note": "Trusted: Lean kernel; for the functions covered by gen_ir_* the translator (go/cmd/factgen/ipfix_ir.go) and the IR's Go "
+            "semantics (Vflow.Model.IpfixIR) take the place of 'the model transcribes the Go code'; Vflow.Model.Flow (Interpret, element "
+            "lookup, cache) stays transcribed; hand-written RFC "
             "encoders Vflow.Spec.Wire; lookupElem/interpret are shared by spec and model (their tie to the Go tables is "
             "C20; for the integer types interpret is proved equal to the RFC value, for the other types it is tied to "
             "Interpret by correspondence only); the correspondence harness and its generator bound what the tie sees. Value rendering to JSON is C11.",
-    "technique": "Lean 4 proof by induction over field lists, record lists, template lists and flowset lists + differential "
+    "technique": "Lean 4 proof by induction over field lists, record lists, template lists and flowset lists + translation validation "
+                 "(regenerated statement-level IR, interpreter, per-function equality theorems) + differential "
                  "correspondence with netflow9.Decoder.Decode + independent expected-decode oracle",
 }
